@@ -79,6 +79,11 @@ def run_c17(R, tier, rng):
         for fn in ("sum", "any", "all", "max", "mean"):
             f = getattr(np, fn)
             C.cmp(f"{fn}(axis=-1) {tag}", "row-" + fn, nt, lambda: num(getattr(mk(), fn)(axis=-1), np.array([f(a) for a in A])), lambda: kl(np.array([f(a) for a in A])), py=pyb + f"; rl.{fn}(axis=-1)")
+        if dt in ("int64", "uint64"):
+            bigrows = [[(2 ** 62 if v == al[0] else v) for v in r] for r in rows]
+            C.cmp(f"mean(axis=-1) big {dt} {bigrows!r}", "row-mean/big", nt, lambda: kl(np.asarray(RunLengthRaggedArray.from_ragged_array(RaggedArray(bigrows, dtype=dt)).mean(axis=-1), dtype=float)),
+                  lambda: kl(np.array([np.mean(np.array(r, dtype=dt)) for r in bigrows])) if all(len(r) <= 2 for r in bigrows) else kl(np.array([np.mean(np.array(r, dtype=dt).astype(float)) for r in bigrows])),
+                  py=f"RunLengthRaggedArray.from_ragged_array(RaggedArray({bigrows!r}, dtype='{dt}')).mean(axis=-1)")
         C.cmp(f"argmax {tag}", "row-argmax", nt, lambda: kl(np.asarray(mk().argmax(axis=-1))), lambda: [int(np.argmax(a)) for a in A], py=pyb + "; rl.argmax(axis=-1)")
         for fn in ("sum", "mean", "max"):
             f = getattr(np, fn)
@@ -140,6 +145,7 @@ def run_c17(R, tier, rng):
             C.cmp(f"row {mtag} [{i}]", "matrix/row-int", nt, lambda: kl(mm()[i].to_array()), lambda: kl(MA[i]), py=pym + f"; m[{i}].to_array()")
             for j in sorted({0, nc - 1, -1, -nc}):
                 C.cmp(f"elem {mtag} [{i},{j}]", "matrix/element", nt, lambda: key(mm()[i, j]), lambda: key(MA[i, j]), py=pym + f"; m[{i}, {j}]")
+        C.cmp(f"sum(axis=0) {mtag} /any-dtype", "matrix/col-sum", nt, lambda: num(mm().sum(axis=0).to_array(), MA.sum(axis=0)), lambda: kl(MA.sum(axis=0)), py=pym + "; m.sum(axis=0).to_array()")
         if dt != "bool":
             C.cmp(f"sum(axis=-1) {mtag}", "matrix/row-sum", nt, lambda: num(mm().sum(axis=-1), MA.sum(axis=-1)), lambda: kl(MA.sum(axis=-1)), py=pym + "; m.sum(axis=-1)")
             C.cmp(f"sum(axis=0) {mtag}", "matrix/col-sum", nt, lambda: num(mm().sum(axis=0).to_array(), MA.sum(axis=0)), lambda: kl(MA.sum(axis=0)), py=pym + "; m.sum(axis=0).to_array()")
